@@ -5,6 +5,7 @@ import (
 	"github.com/brutella/hc/crypto"
 	"github.com/brutella/hc/log"
 	"net"
+	"sync"
 	"time"
 
 	"bufio"
@@ -23,6 +24,9 @@ import (
 type Connection struct {
 	connection net.Conn
 	context    Context
+
+	// Synchronizes encrypted writes
+	writeMutex sync.Mutex
 
 	// Used to buffer encrypted bytes read from the connection
 	buffered *bufio.Reader
@@ -49,6 +53,12 @@ func NewConnection(connection net.Conn, context Context) *Connection {
 // The method returns the number of written bytes and an error when writing failed.
 func (con *Connection) EncryptedWrite(b []byte) (int, error) {
 	verifWriteEnter(con)
+
+	// Encrypting increments the frame counter. The frames have to reach the
+	// connection in that order, even when different goroutines write.
+	con.writeMutex.Lock()
+	defer con.writeMutex.Unlock()
+
 	var buffer bytes.Buffer
 	buffer.Write(b)
 	encrypter := con.getEncrypter()
